@@ -178,6 +178,41 @@ example :
     ∧ authorize st true (some ['r']) (.define ['t']) = .proceed
     ∧ authorize st true none (.query ['t'] []) = .unauthorized := by decide
 
+/-- **Gate and dispatcher together.** With authentication configured on: if a request line
+passes the gate as `(cmd, user)`, `cmd` parses to `c` and the dispatcher answers 200, then
+`user` is an active account, and — for the kinds whose handler receives the identity, without
+sequence tail, `user ≠ "bypass"` — it holds the read right for every type read, the write
+right for every type written, and the admin role where the command needs it.
+PARTIAL: same three hypotheses as above. -/
+theorem C13_end_to_end_partial (mac : Str → Str → Str) (alnum : Char → Bool) (cfg : Cfg) (st st' : State)
+    (conn : Option Str) (now : Nat) (line cmd user : Str) (c : Cmd) (all : List Str)
+    (hcfg : cfg.bypass = false ∧ cfg.hasManager = true)
+    (hg : gate mac cfg st conn now line = .pass cmd user)
+    (hd : dispatch alnum st cfg.hasManager (some user) c = (.s200, st'))
+    (hid : passesIdentity c = true) (hseq : seqTail c = []) (hby : user ≠ bypassUserId) :
+    (∃ u, findUser st user = some u ∧ u.active = true) ∧
+    (∀ et ∈ readsOf all c, specRead st user et = true) ∧
+    (∀ et ∈ writesOf c, specWrite st user et = true) ∧
+    (needsAdmin c = true → specAdmin st user = true) := by
+  have hp := dispatch_200 alnum st st' cfg.hasManager (some user) c hd
+  rw [hcfg.2] at hp
+  have hne : (some user : Option Str) ≠ some bypassUserId := fun h => hby (Option.some.inj h)
+  refine ⟨?_, ?_, ?_, ?_⟩
+  · rcases C13_gate_sound mac cfg st conn now line cmd user hg with h | h | h | h
+    · rw [hcfg.1] at h; exact absurd h.1 (by simp)
+    · rw [hcfg.2] at h; exact absurd h.1 (by simp)
+    · obtain ⟨u, _, h1, h2, _⟩ := h; exact ⟨u, h1, h2⟩
+    · obtain ⟨_, u, _, _, _, _, _, h1, h2, _⟩ := h; exact ⟨u, h1, h2⟩
+  · intro et het
+    obtain ⟨u, hu, hr⟩ := C13_read_needs_permission_partial all st (some user) c hp hid hseq hne et het
+    cases hu; exact hr
+  · intro et het
+    obtain ⟨u, hu, hr⟩ := C13_write_needs_permission_partial st (some user) c hp hne et het
+    cases hu; exact hr
+  · intro hadm
+    obtain ⟨u, hu, hr⟩ := C13_admin_only_partial st (some user) c hp hadm hne
+    cases hu; exact hr
+
 /-! ## Revocation -/
 
 /-- **Key revocation takes effect for the next request and for ever after.** Once
@@ -208,6 +243,19 @@ theorem C13_revoke_permission_next_request (st : State) (id et : Str) (tail : Li
     authorize st' true (some id) (.query et tail) = .forbidden ∧
     authorize st' true (some id) (.store et ok) = .forbidden :=
   revoke_all_forbids st id et tail ok hex hna hby
+
+/-- … and stays in effect over any later sequence of commands (by whomever), token mintings
+and direct `AuthManager` calls, until somebody names `(id, et)` in a GRANT / `grant_permission`
+/ `revoke_permission` again (`regrants`; note that the API's `revoke_permission` *removes* the
+explicit denial and thereby gives a role holder access back). Invariant by induction over the
+operation sequence. -/
+theorem C13_revoked_permission_stays (alnum : Char → Bool) (cfg : Cfg) (st : State) (id et : Str)
+    (later : List Later) (tail : List Str) (ok : Bool)
+    (hex : (findUser st id).isSome = true) (hna : isAdmin st id = false) (hby : id ≠ bypassUserId)
+    (hno : ∀ l ∈ later, regrants id et l = false) :
+    authorize (applyLater alnum cfg (revokeLoop st true true id [et]).2 later) true (some id) (.query et tail) = .forbidden ∧
+    authorize (applyLater alnum cfg (revokeLoop st true true id [et]).2 later) true (some id) (.store et ok) = .forbidden :=
+  revoked_permission_stays alnum cfg st id et later tail ok hex hna hby hno
 
 /-- `REVOKE WRITE` alone: the next STORE is forbidden; `REVOKE READ` alone: the next QUERY is
 forbidden unless a reading role (read-only / viewer / editor) still lets `id` read — which the
